@@ -58,18 +58,52 @@ pub struct DecoOpts {
     pub regions: u32,
     /// own-line comment between two arbitrary tokens of a statement/declaration
     pub odd_comment: u32,
+    /// `{$IFDEF X}, Arg{$ELSE}, Other{$ENDIF}` around one element of a comma-separated list
+    /// (arguments, set elements, enum values, units of a uses clause), per eligible comma
+    pub inline_cond: u32,
 }
 
 impl DecoOpts {
     pub fn none() -> Self {
-        DecoOpts { own_line_comment: 0, trailing_comment: 0, inline_block_comment: 0, own_line_directive: 0, cond_wrap: 0, blank_line: 0, regions: 0, odd_comment: 0 }
+        DecoOpts { own_line_comment: 0, trailing_comment: 0, inline_block_comment: 0, own_line_directive: 0, cond_wrap: 0, blank_line: 0, regions: 0, odd_comment: 0, inline_cond: 0 }
     }
     pub fn light() -> Self {
-        DecoOpts { own_line_comment: 60, trailing_comment: 60, inline_block_comment: 8, own_line_directive: 25, cond_wrap: 25, blank_line: 120, regions: 0, odd_comment: 0 }
+        DecoOpts { own_line_comment: 60, trailing_comment: 60, inline_block_comment: 8, own_line_directive: 25, cond_wrap: 25, blank_line: 120, regions: 0, odd_comment: 0, inline_cond: 0 }
     }
     pub fn heavy() -> Self {
-        DecoOpts { own_line_comment: 200, trailing_comment: 200, inline_block_comment: 40, own_line_directive: 80, cond_wrap: 80, blank_line: 250, regions: 0, odd_comment: 0 }
+        DecoOpts { own_line_comment: 200, trailing_comment: 200, inline_block_comment: 40, own_line_directive: 80, cond_wrap: 80, blank_line: 250, regions: 0, odd_comment: 0, inline_cond: 0 }
     }
+}
+
+/// `toks[comma]` is a comma; if it starts a removable element of a comma-separated list (the
+/// element ends before the next `,` `)` `]` or `;` at the same nesting depth and holds nothing that
+/// would make the list invalid without it), the index of the token that follows the element
+fn list_element_end(toks: &[GTok], comma: usize) -> Option<usize> {
+    let mut depth = 0usize;
+    let mut j = comma + 1;
+    while j < toks.len() && j - comma <= 12 {
+        let t = &toks[j];
+        if t.line_start || t.kind == GK::MlStr {
+            return None;
+        }
+        match t.text.as_str() {
+            "(" | "[" => depth += 1,
+            ")" | "]" => {
+                if depth == 0 {
+                    return if j > comma + 1 { Some(j) } else { None };
+                }
+                depth -= 1;
+            }
+            "," | ";" if depth == 0 => return if j > comma + 1 { Some(j) } else { None },
+            // declarations (`A, B: T`), case labels, width specifiers, generic argument lists,
+            // anonymous routines: leaving the element out would not leave a valid list
+            ":" | "<" | ">" | ";" | "=" | ":=" => return None,
+            w if t.kind == GK::Keyword && matches!(w.to_ascii_lowercase().as_str(), "begin" | "end" | "procedure" | "function" | "of" | "do" | "then" | "index" | "name" | "in") => return None,
+            _ => {}
+        }
+        j += 1;
+    }
+    None
 }
 
 fn first_char(s: &str) -> char {
@@ -254,9 +288,19 @@ impl Layout {
         // pending `{$ENDIF}` insertions keyed by token index before which they go (stack for nesting)
         let mut pending_end: Vec<(usize, String, u16)> = vec![];
 
+        // a conditional list element that is open: (token before which it closes, closing pieces)
+        let mut inline_end: Option<(usize, Vec<Piece>)> = None;
+
         let mut cur_indent = String::new();
         let mut odd_comment_after: Vec<String> = vec![];
         for (ti, t) in toks.iter().enumerate() {
+            if inline_end.as_ref().is_some_and(|(e, _)| *e == ti) {
+                let (_, closing) = inline_end.take().unwrap();
+                for p in closing {
+                    gaps.push(if p.kind == PieceKind::Extra && p.text != "," { " ".to_string() } else { String::new() });
+                    pieces.push(p);
+                }
+            }
             let indent: String = indent_unit.repeat(t.depth as usize);
             if t.line_start {
                 cur_indent = indent.clone();
@@ -319,6 +363,22 @@ impl Layout {
                 gaps.push(format!("{lead}{indent}"));
             } else {
                 // within a line
+                if t.text == "," && inline_end.is_none() && deco.inline_cond > 0 && rng.chance(deco.inline_cond, 1000) {
+                    if let Some(end) = list_element_end(toks, ti) {
+                        let name = *rng.pick(&["DEBUG", "MSWINDOWS", "foo", "CPUX64"]);
+                        let open = if rng.chance(1, 4) { format!("{{$IFNDEF {name}}}") } else { format!("{{$IFDEF {name}}}") };
+                        gaps.push(if rng.bool() { " ".to_string() } else { String::new() });
+                        pieces.push(Piece { kind: PieceKind::Directive, text: open, verbatim: false });
+                        let mut closing = vec![];
+                        if rng.chance(1, 3) {
+                            closing.push(Piece { kind: PieceKind::Directive, text: "{$ELSE}".into(), verbatim: false });
+                            closing.push(Piece { kind: PieceKind::Extra, text: ",".into(), verbatim: false });
+                            closing.push(Piece { kind: PieceKind::Extra, text: (*rng.pick(&["Other", "AltValue", "42", "Fallback.Unit1"])).to_string(), verbatim: false });
+                        }
+                        closing.push(Piece { kind: PieceKind::Directive, text: if rng.chance(1, 5) { "{$endif}".into() } else { "{$ENDIF}".into() }, verbatim: false });
+                        inline_end = Some((end, closing));
+                    }
+                }
                 let prev = pieces.last();
                 let tight = t.tight_left || prev.is_some_and(|p| matches!(p.kind, PieceKind::Tok(pi) if toks[pi].tight_right));
                 let cand = Piece { kind: PieceKind::Tok(ti), text: t.text.clone(), verbatim: false };
@@ -359,6 +419,12 @@ impl Layout {
             if t.line_end && rng.chance(deco.trailing_comment, 1000) {
                 gaps.push(if rng.chance(1, 4) { "  ".into() } else { " ".into() });
                 pieces.push(Piece { kind: PieceKind::LineComment, text: line_comment_text(rng), verbatim: false });
+            }
+        }
+        if let Some((_, closing)) = inline_end.take() {
+            for p in closing {
+                gaps.push(String::new());
+                pieces.push(p);
             }
         }
         // close wraps that extend to the end (should not happen since ends are tokens)
